@@ -1,7 +1,6 @@
 package c07
 
 import (
-	"encoding/json"
 	"bytes"
 	"crypto/x509"
 	"fmt"
@@ -279,13 +278,24 @@ func buildCatalogue() []deviation {
 	add("extra-critical-attribute", true, both, func(m *Model) { m.Set("io.example.crit", `"v"`, envcodec.Tstr("v")); addCrit(m, "io.example.crit") })
 	add("extra-attributes-integer-and-text-labels", true, coseOnly, func(m *Model) {
 		// several extended attributes, integer- and text-labelled side by side
-		m.COSE = append(m.COSE, envcodec.KV{K: envcodec.Int(70001), V: envcodec.Tstr("int-labelled")},
-			envcodec.KV{K: envcodec.Tstr("io.example.second"), V: envcodec.Int(2)},
-			envcodec.KV{K: envcodec.Int(-70002), V: envcodec.Array(envcodec.Int(1))})
+		// (set, not appended: applying the item twice must not duplicate a label)
+		set := func(k, v []byte) {
+			for i := range m.COSE {
+				if string(m.COSE[i].K) == string(k) {
+					m.COSE[i].V = v
+					return
+				}
+			}
+			m.COSE = append(m.COSE, envcodec.KV{K: k, V: v})
+		}
+		set(envcodec.Int(70001), envcodec.Tstr("int-labelled"))
+		set(envcodec.Tstr("io.example.second"), envcodec.Int(2))
+		set(envcodec.Int(-70002), envcodec.Array(envcodec.Int(1)))
 	})
 	add("extra-attributes-several", true, jwsOnly, func(m *Model) {
-		m.JWS = append(m.JWS, envcodec.Member{Name: "io.example.second", Raw: json.RawMessage(`2`)}, envcodec.Member{Name: "io.example.Second", Raw: json.RawMessage(`"3"`)},
-			envcodec.Member{Name: "7", Raw: json.RawMessage(`[7]`)})
+		m.Set("io.example.second", `2`, nil)
+		m.Set("io.example.Second", `"3"`, nil)
+		m.Set("7", `[7]`, nil)
 	})
 	add("headers-reversed", true, both, func(m *Model) {
 		for i, j := 0, len(m.JWS)-1; i < j; i, j = i+1, j-1 {
